@@ -21,7 +21,16 @@ def run(harnesses, tier):
         shutil.copy(os.path.join(REPO, 'Cargo.lock'), os.path.join(CRATE, 'Cargo.lock'))
     except OSError:
         pass
-    cmd = ['cargo', 'kani', '--target-dir', TARGET, '--output-format', 'terse', '-j', '8']
+    with open(os.path.join(CRATE, 'Cargo.toml.in')) as f:
+        toml = f.read().replace('@REPO@', REPO)
+    try:
+        old = open(os.path.join(CRATE, 'Cargo.toml')).read()
+    except OSError:
+        old = None
+    if old != toml:
+        with open(os.path.join(CRATE, 'Cargo.toml'), 'w') as f:
+            f.write(toml)
+    cmd = ['cargo', 'kani', '--target-dir', TARGET, '--output-format', 'terse']
     for h in harnesses:
         cmd += ['--harness', h]
     env = dict(os.environ, CARGO_NET_OFFLINE='true', PURL_REPO=REPO)
